@@ -404,6 +404,23 @@ func NewFECase(g *Gen, id int) *Case {
 				comparable = false // (no longer the same record as the Go map)
 			}
 		}
+		if g.R.Fork(0x9a9a).P(20) && len(n.Fields) > 0 {
+			// numbered parameters (tags[0]=a&tags[5]=b&tags[7]=c): not a spelling of a list, such keys name nothing
+			f := n.Fields[g.R.Fork(0x9a9b).Intn(len(n.Fields))]
+			for _, f2 := range n.Fields { // (preferably a parameter that is a list by its name)
+				if strings.HasSuffix(feKey(f2, tag), "[]") && len(vals[feKey(f2, tag)]) > 0 {
+					f = f2
+				}
+			}
+			if vs, ok := vals[feKey(f, tag)]; ok && len(vs) > 0 {
+				delete(vals, feKey(f, tag))
+				base := strings.TrimSuffix(feKey(f, tag), "[]")
+				for i, v := range append(vs, "x1", "x2") {
+					vals[fmt.Sprintf("%s[%d]", base, []int{0, 5, 7, 9, 11, 13, 15}[i%7])] = []string{v}
+				}
+				comparable = false
+			}
+		}
 		if g.R.P(20) && len(n.Fields) > 0 { // []-suffixed spelling of a list parameter
 			f := n.Fields[g.R.Intn(len(n.Fields))]
 			if vs, ok := vals[feKey(f, tag)]; ok {
